@@ -67,8 +67,8 @@ impl Prop for C02 {
 
     fn gen_cases(&self, tier: Tier) -> u64 {
         match tier {
-            Tier::Quick => 60_000,
-            Tier::Thorough => 800_000,
+            Tier::Quick => 240_000,
+            Tier::Thorough => 1_500_000,
         }
     }
 
